@@ -18,7 +18,7 @@ func init() {
 			"write to a node that is not fresh — ToMut returns the live node when it is already unshared; call of an effectful callee) there is no call that may return a non-nil error " +
 			"(a user callback or store operation returning error; in-repo callees are looked into with what precedes the call as their context) whose result is used; a finding is keyed by (entry point, failing step, kinds of state already changed) and so does not depend on how the code is cut into helpers.",
 		Run: runCOMMIT})
-	Register(&Rule{ID: "PURITY", Props: []string{"C01", "C12"}, Min: 10,
+	Register(&Rule{ID: "PURITY", Props: []string{"C01", "C12", "C15"}, Min: 10,
 		Doc: "from each read-only entry point (Get, Iter, SeekIter, Size, Height, IsDirty, BranchFactor, DiffIter, DiffLinks, StartDiff, NextEntry, Cursor and the Cursor methods) " +
 			"no reachable function stores to a field of a non-local Mast or writes a node that is not fresh.",
 		Run: runPURITY})
